@@ -44,6 +44,12 @@ BoolF       == [kind |-> "bool"] @@ Common
 BytesF      == [kind |-> "bytes", encoding |-> "base64"] @@ Common
 ListF(item) == [kind |-> "list", item |-> item] @@ Common
 DictF(k, v) == [kind |-> "dict", keyf |-> k, valf |-> v] @@ Common
+\* SecureField: plaintext in memory, encrypted on disk under the configuration's key file
+SecureF     == [kind |-> "secure", method |-> "best"] @@ [Common EXCEPT !.sensitive = TRUE]
+\* ChallengeField: in memory a digest value [t |-> "digest", alg, pt] (the random salt is not
+\* part of the abstract value; salts are the subject of CincoCrypto / C09)
+ChallengeF  == [kind |-> "challenge", alg |-> "sha256"] @@ Common
+DigestV(alg, pt) == [t |-> "digest", alg |-> alg, pt |-> pt]
 NoF         == [kind |-> "nofield"]          \* ListField(None) / untyped DictField side
 
 With(f, g) == g @@ f        \* override options:  With(IntF, [hasmin |-> TRUE, min |-> 0])
@@ -359,6 +365,11 @@ ClassValidate(f, v) ==
       [] f.kind \in {"int", "float"} -> NumberValidate(f, v)
       [] f.kind = "bool"     -> BoolValidate(f, v)
       [] f.kind = "bytes"    -> BytesValidate(f, v)
+      [] f.kind = "secure"   -> Ok(v)            \* SecureField has no _validate of its own
+      [] f.kind = "challenge" ->
+            IF v.t \in {"str", "bytes"} THEN Ok(DigestV(f.alg, v))
+            ELSE IF v.t = "digest" THEN Ok(v)
+            ELSE Fail("ValueError")
       [] f.kind = "list"     ->
             IF v.t \notin {"list", "tuple"} THEN Fail("ValueError")
             ELSE IF f.required /\ v.l = <<>> THEN Fail("ValueError")
@@ -378,60 +389,86 @@ Validate(f, v) ==
     ELSE ClassValidate(f, v)
 
 ---------------------------------------------------------------------------
-(* on-disk encoding *)
-RECURSIVE ToBasic(_, _)
-ToBasic(f, n) ==
+(* on-disk encoding.  `key` names the key file of the configuration that owns the field
+   (only SecureField uses it).  An encrypted secret is the opaque leaf
+       [t |-> "enc", m |-> "aes"|"xor", key |-> <key file name>, pt |-> <plaintext value>]
+   which stands for the map {"method": m, "ciphertext": base64(...)}; a digest leaf
+   [t |-> "digest", alg, pt] stands for the map {"salt": ..., "digest": ...}.  The conformance
+   harness converts between these leaves and real documents with independent cipher / hash
+   implementations. *)
+ConcreteMethod(m) == IF m = "best" THEN "aes" ELSE m
+EncV(m, key, pt) == [t |-> "enc", m |-> m, key |-> key, pt |-> pt]
+
+RECURSIVE ToBasicK(_, _, _)
+ToBasicK(f, n, key) ==
     CASE f.kind = "bytes" ->
             IF IsNone(n) THEN n
             ELSE IF f.encoding = "hex" THEN StrV(HexEnc(n.y)) ELSE StrV(B64Enc(n.y))
+      [] f.kind = "secure" ->
+            IF ~Truthy(n) THEN NoneV ELSE EncV(ConcreteMethod(f.method), key, n)
       [] f.kind = "list" ->
             IF IsNone(n) THEN n
             ELSE IF n.l = <<>> THEN ListV(<<>>)
             ELSE IF f.item.kind = "nofield" THEN ListV(n.l)
-            ELSE ListV([i \in DOMAIN n.l |-> ToBasic(f.item, n.l[i])])
+            ELSE ListV([i \in DOMAIN n.l |-> ToBasicK(f.item, n.l[i], key)])
       [] f.kind = "dict" ->
             IF IsNone(n) THEN n
             ELSE IF n.kv = <<>> THEN DictV(<<>>)
             ELSE IF f.keyf.kind = "nofield" /\ f.valf.kind = "nofield" THEN n
             ELSE DictV(DictFromPairs([i \in DOMAIN n.kv |->
-                        <<ToBasic(f.keyf, n.kv[i][1]), ToBasic(f.valf, n.kv[i][2])>>], <<>>))
-      [] OTHER -> n
+                        <<ToBasicK(f.keyf, n.kv[i][1], key), ToBasicK(f.valf, n.kv[i][2], key)>>], <<>>))
+      [] OTHER -> n          \* incl. challenge: the digest value is its own leaf
+ToBasic(f, n) == ToBasicK(f, n, "nokey")
 
-RECURSIVE ToPython(_, _)
-RECURSIVE ToPythonItems(_, _, _)
-ToPythonItems(item, l, acc) ==
+RECURSIVE ToPythonK(_, _, _)
+RECURSIVE ToPythonItems(_, _, _, _)
+ToPythonItems(item, l, acc, key) ==
     IF l = <<>> THEN Ok(acc)
-    ELSE LET r == ToPython(item, Head(l)) IN
-         IF r.ok THEN ToPythonItems(item, Tail(l), Append(acc, r.v)) ELSE r
-RECURSIVE ToPythonPairs(_, _, _)
-ToPythonPairs(f, kv, acc) ==
+    ELSE LET r == ToPythonK(item, Head(l), key) IN
+         IF r.ok THEN ToPythonItems(item, Tail(l), Append(acc, r.v), key) ELSE r
+RECURSIVE ToPythonPairs(_, _, _, _)
+ToPythonPairs(f, kv, acc, key) ==
     IF kv = <<>> THEN Ok(acc)
-    ELSE LET rk == ToPython(f.keyf, Head(kv)[1])  rv == ToPython(f.valf, Head(kv)[2]) IN
+    ELSE LET rk == ToPythonK(f.keyf, Head(kv)[1], key)  rv == ToPythonK(f.valf, Head(kv)[2], key) IN
          IF ~rk.ok THEN rk ELSE IF ~rv.ok THEN rv
-         ELSE ToPythonPairs(f, Tail(kv), Append(acc, <<rk.v, rv.v>>))
+         ELSE ToPythonPairs(f, Tail(kv), Append(acc, <<rk.v, rv.v>>), key)
 
-ToPython(f, b) ==
+ToPythonK(f, b, key) ==
     CASE f.kind = "bytes" ->
             IF IsNone(b) THEN Ok(b)
             ELSE IF ~IsStr(b) THEN Fail("ValueError")
             ELSE IF f.encoding = "hex"
                  THEN IF HexOk(b.s) THEN Ok(BytesV(HexDec(b.s))) ELSE Fail("ValueError")
                  ELSE IF B64Ok(b.s) THEN Ok(BytesV(B64Dec(b.s))) ELSE Fail("Unmodelled")
+      [] f.kind = "secure" ->
+            \* secure_field.py to_python: None and plain strings pass through; a stored secret
+            \* decrypts only under the key file it was encrypted with
+            IF IsNone(b) \/ IsStr(b) THEN Ok(b)
+            ELSE IF b.t = "enc" THEN (IF b.key = key THEN Ok(b.pt) ELSE Fail("ValueError"))
+            ELSE IF b.t = "dict" THEN Fail("Unmodelled")     \* malformed stored secrets: CincoCrypto / C08
+            ELSE Fail("ValueError")
+      [] f.kind = "challenge" ->
+            IF IsNone(b) THEN Ok(b)
+            ELSE IF b.t = "digest" THEN Ok([b EXCEPT !.alg = f.alg])
+            ELSE IF IsStr(b) THEN Ok(DigestV(f.alg, b))      \* plaintext written by hand is hashed
+            ELSE IF b.t = "dict" THEN Fail("Unmodelled")
+            ELSE Fail("ValueError")
       [] f.kind = "list" ->
             \* list_field.py to_python: decode every item with the item field, then validate
             IF f.item.kind \in {"nofield", "any"} \/ b.t \notin {"list", "tuple"} THEN
                 (IF f.item.kind \in {"nofield", "any"} THEN Ok(b)
                  ELSE IF ~Truthy(b) THEN Ok(ListV(<<>>))     \* ListProxy(cfg, f, None | {} | "" | 0): `iterable or []`
                  ELSE Fail("Unmodelled"))
-            ELSE LET d == ToPythonItems(f.item, b.l, <<>>) IN
+            ELSE LET d == ToPythonItems(f.item, b.l, <<>>, key) IN
                  IF ~d.ok THEN d ELSE ValidateItems(f.item, d.v, <<>>)
       [] f.kind = "dict" ->
             IF f.keyf.kind = "nofield" /\ f.valf.kind = "nofield" THEN Ok(b)
             ELSE IF ~Truthy(b) THEN Ok(DictV(<<>>))          \* DictProxy(cfg, f, None | [] | "" | 0): `iterable or []`
             ELSE IF b.t # "dict" THEN Fail("Unmodelled")
-            ELSE LET d == ToPythonPairs(f, b.kv, <<>>) IN
+            ELSE LET d == ToPythonPairs(f, b.kv, <<>>, key) IN
                  IF ~d.ok THEN d ELSE ValidatePairs(f, d.v, <<>>)
       [] OTHER -> Ok(b)
+ToPython(f, b) == ToPythonK(f, b, "nokey")
 
 ---------------------------------------------------------------------------
 (* DECLARATIVE side: what a stored value must satisfy, and the normal form of an input *)
@@ -477,6 +514,8 @@ Meets(f, n) ==
       [] f.kind = "float"    -> IsFloat(n) /\ NumInRange(f, n)
       [] f.kind = "bool"     -> IsBool(n)
       [] f.kind = "bytes"    -> IsBytes(n)
+      [] f.kind = "secure"   -> TRUE
+      [] f.kind = "challenge" -> n.t = "digest"
       [] f.kind = "list"     -> /\ n.t \in {"list", "tuple"}
                                 /\ f.required => n.l # <<>>
                                 /\ \A i \in DOMAIN n.l : Meets(f.item, n.l[i])
@@ -501,7 +540,7 @@ HasUntypedPart(f) == \/ Untyped(f)
 RECURSIVE IsPlainK(_)
 \* (C05 does not speak about map keys; C02 does, and decides string keys there)
 IsPlainK(v) ==
-    CASE v.t \in {"none", "bool", "int", "float", "fspec", "str"} -> TRUE
+    CASE v.t \in {"none", "bool", "int", "float", "fspec", "str", "enc", "digest"} -> TRUE
       [] v.t = "list" -> \A i \in DOMAIN v.l : IsPlainK(v.l[i])
       [] v.t = "dict" -> \A i \in DOMAIN v.kv :
                             v.kv[i][1].t \in {"str", "int", "float", "bool"} /\ IsPlainK(v.kv[i][2])
